@@ -1,4 +1,7 @@
-# Read by bin/mkmanifest.  claim(id, DESIGN.md section, level text, level note) / na(id, reason)
+# Read by bin/mkmanifest.
+# THOROUGH_OK: properties whose thorough tier ran to completion (exit 0) on the unchanged tree; filled from measurements.
+THOROUGH_OK.update([])
+#  claim(id, DESIGN.md section, level text, level note) / na(id, reason)
 COMMON_NOTE = (" Trusted base: Kani/CBMC's model of Rust (dev profile: overflow checks and debug assertions on), 64-bit LE host, "
                "serde/heapless/cobs/crc compiled in from the offline registry, kani::Arbitrary derive enumerates the corpus types. "
                "Bounds per harness are in the evidence (samples[].bounds); nothing outside them is claimed.")
